@@ -2,7 +2,7 @@
 ``Screen(...)`` construction sites, h5 writer/reader tables, guard helpers)."""
 import ast
 
-from engine.astutil import (U, calls, kwargs, single_defs, inline, strip_copy, walk_own, call_name, attr_tail, enclosing_map,
+from engine.astutil import (U, calls, kwargs, single_defs, inline, strip_copy, walk_own, call_name, attr_tail, enclosing_map, names_in,
                             same, stmt_text)
 from engine.repo import AnalysisError
 from engine.norm import Norm, parse_expr
@@ -80,6 +80,40 @@ def control_name_travels_with_mapping(ctx, rule):
                   f"the construction re-uses `{owner}.treatment_mapping` but passes control_treatment_name=`{cne if cne is not None else '<omitted: defaults to the empty name>'}`: "
                   f"the mapping's sentinel rows were derived under `{owner}.control_treatment_name`, so in the rebuilt screen the control name and the sentinel disagree")
     ctx.need(n >= 5, f"only {n} Screen constructions that re-use a treatment mapping found")
+
+
+def stored_mappings_verbatim(ctx, rule):
+    """Screen.__init__ keeps, as its id mappings, exactly what the encoders returned: `self._X_mapping` is the tuple of the encoder call's
+    mapping outputs, in order, with no conversion in between.  (A cast of the names to the dtype of the rows - `astype(sample_names.dtype)` -
+    truncates a mapping name that is longer than every name in the rows: the stored mapping then names another sample.)"""
+    init = ctx.fn("data.Screen.__init__")
+    outs = {}
+    for n in walk_own(init.node):
+        if isinstance(n, ast.Assign) and len(n.targets) == 1 and isinstance(n.targets[0], (ast.Tuple, ast.List)) and isinstance(n.value, ast.Call):
+            enc = U(n.value.func)
+            if enc in ("encode_treatment_arrays_to_0_indexed_ids", "encode_1d_array_to_0_indexed_ids"):
+                mp = U(kwargs(n.value).get("existing_mapping")) if kwargs(n.value).get("existing_mapping") is not None else None
+                outs[(enc, mp)] = [U(t) for t in n.targets[0].elts]
+    env = single_defs(init.node)
+    for attr, enc, mp, k in (("_treatment_mapping", "encode_treatment_arrays_to_0_indexed_ids", "treatment_mapping", 3), ("_sample_mapping", "encode_1d_array_to_0_indexed_ids", "sample_mapping", 2)):
+        got = outs.get((enc, mp))
+        stores = [n for n in walk_own(init.node) if isinstance(n, ast.Assign) and len(n.targets) == 1 and U(n.targets[0]) == f"self.{attr}"]
+        if got is None or len(stores) != 1:
+            raise AnalysisError(f"{init.site()}: the encoder call with existing_mapping={mp} unpacked into names, or the single store of self.{attr}, was not found")
+        v = stores[0].value
+        if isinstance(v, ast.Name) and v.id in env:
+            v = env[v.id]
+        elts = [U(x) for x in v.elts] if isinstance(v, (ast.Tuple, ast.List)) else None
+        want = got[-k:]
+        if elts is None or len(elts) != k:
+            raise AnalysisError(f"{init.site()}: self.{attr} is `{U(stores[0].value)[:80]}`, not a display of {k} items; how it relates to the encoder's outputs is not read by this rule")
+        conv = [U(x)[:60] for x in (v.elts if isinstance(v, (ast.Tuple, ast.List)) else []) if not isinstance(x, ast.Name)]
+        if any(not isinstance(x, ast.Name) and want[i] not in names_in(x) for i, x in enumerate(v.elts)):
+            raise AnalysisError(f"{init.site()}: an item of self.{attr} (`{U(stores[0].value)[:80]}`) is computed from something else than the encoder's output at that position")
+        ctx.check(rule, f"{init.site()}::self.{attr}-is-the-encoder-output", elts == want,
+                  f"self.{attr} = ({', '.join(want)}) as returned by {enc}",
+                  f"self.{attr} is `{U(stores[0].value)[:120]}`, not the encoder's mapping outputs ({', '.join(want)}) as returned"
+                  + (f": {conv} converts a mapping column (a cast of names to the rows' fixed-width dtype truncates longer names of a supplied mapping)" if conv else ""))
 
 
 def call_keywords(R, f, call, params):
@@ -1054,7 +1088,11 @@ def no_stale_memo(ctx, rule, owner="batchie.data.Screen", views=("batchie.data.S
             hit = set()
             for st_ in walk_own(f_.node):
                 tg_ = st_.targets if isinstance(st_, ast.Assign) else ([st_.target] if isinstance(st_, (ast.AugAssign, ast.AnnAssign)) else [])
+                # (a, self.screen.x, _ = f(..): each element of an unpacking target is a target)
+                flat_ = []
                 for t_ in tg_:
+                    flat_ += list(t_.elts) if isinstance(t_, (ast.Tuple, ast.List)) else [t_]
+                for t_ in flat_:
                     root = t_
                     while isinstance(root, ast.Subscript):
                         root = root.value
@@ -1116,6 +1154,13 @@ def no_stale_memo(ctx, rule, owner="batchie.data.Screen", views=("batchie.data.S
         if not vm:
             continue
         bad = []
+        # the view's own mutable state: attributes that a method of the view class family other than __init__ re-binds (Plate.merge replaces
+        # self.selection_vector)
+        view_state = set()
+        for vq2 in views:
+            for nm2, f2 in R.methods(vq2).items():
+                if nm2 != "__init__" and len(f2.params) >= 2:
+                    view_state |= _self_attr_stores(f2.node)
         for nm, f in sorted(vm.items()):
             if nm == "__init__" or len(f.params) != 1:
                 continue
@@ -1125,8 +1170,8 @@ def no_stale_memo(ctx, rule, owner="batchie.data.Screen", views=("batchie.data.S
                 continue
             via_screen = {x.attr for x in ast.walk(f.node) if isinstance(x, ast.Attribute) and U(x.value) == "self.screen"}
             own = _self_attr_reads(f.node)
-            if via_screen & mutable_props or own & (mutable_props - {"screen"}) & set(vm) :
-                bad.append((f, nm, sorted(via_screen & mutable_props) or sorted(own & mutable_props)))
+            if via_screen & mutable_props or own & (mutable_props - {"screen"}) & set(vm) or own & view_state:
+                bad.append((f, nm, sorted(via_screen & mutable_props) or sorted(own & mutable_props) or sorted(f"view's own {a_}" for a_ in own & view_state)))
         for f, nm, why in bad:
             ctx.bad(rule, f"{f.site()}::view-keeps-nothing-mutable", f"the view's `{nm}` keeps a value derived from the screen's mutable {why}: the view is not told when the screen changes")
         if not bad:
